@@ -25,6 +25,7 @@ theorem writeChunks_derived (t : Tier) (c : SetCmd) (token : Bytes) (ds : Nat) (
     · intro r
       cases r with
       | io => exact AllReqs.ret _
+      | wfail => exact AllReqs.ret _
       | status s =>
         simp only
         split
